@@ -68,7 +68,9 @@ RC.append(("np.linalg.eigh: the rule skips its eigenvector term when the eigenve
            "second derivatives of a function that depends on eigenvectors are wrong wherever its first-order eigenvector cotangent vanishes (zero-residual least squares: Hessian 0 instead of J^T J)",
            [("C07", "eigh", "*", "gauss-newton-hessian-wrong", "observable:~(fun|proj)")]))
 RC.append(("np.linalg.solve with batched matrix and broadcasting vector right-hand side (see C01 entry): wrong Gauss-Newton Hessian",
-           [("C07", "solve", "*", "gauss-newton-hessian-wrong", "batch_broadcast:True,rhs_vector:True")]))
+           [("C07", "solve", "*", "gauss-newton-hessian-wrong", "batch_broadcast:True,rhs_vector:True"),
+            ("C07", "solve", "*", "third-order-wrong-value", "batch_broadcast:True,rhs_vector:True"),
+            ("C07", "solve", "*", "third-order-routes-disagree", "batch_broadcast:True,rhs_vector:True")]))
 RC.append(("np.einsum where a LABELLED size-1 dimension broadcasts against a larger dimension with the same label: the gradient of the larger operand is not broadcast back up "
            "(and comes out with the size-1 shape)",
            [(p, "einsum", "rev", k, "size1_label_broadcast:True,argnum:~(1|joint)") for p, k in (("C01", "wrong-shape"), ("C05", "wrong-structure"), ("C09", "wrong-shape"), ("C01", "wrong-value"))]))
